@@ -35,6 +35,27 @@ def url_of(o):
     return s
 
 
+def bare(host: str) -> str:
+    """The host as the library holds it and hands it to the network: lower case, an IPv6 literal without its URL brackets."""
+    h = host.lower()
+    return h[1:-1] if h.startswith("[") and h.endswith("]") else h
+
+
+def same_hostport(got: str, host: str, port: int) -> bool:
+    """host:port of a CONNECT target / SOCKS command; an IPv6 literal may or may not be bracketed and may be spelled in another canonical form."""
+    if got in (f"{host}:{port}", f"[{host}]:{port}"):
+        return True
+    if ":" in host:
+        import ipaddress
+
+        g_host, _, g_port = got.rpartition(":")
+        try:
+            return g_port == str(port) and ipaddress.ip_address(g_host.strip("[]")) == ipaddress.ip_address(host)
+        except ValueError:
+            return False
+    return False
+
+
 def eport(o):
     return o["port"] if o["port"] is not None else DEFAULT_PORT[o["scheme"]]
 
@@ -85,7 +106,7 @@ def judge(case, world, outs):
             continue
         ex = exs[0]
         pipe = world.pipes[ex["pipe"]]
-        host, port = o["host"].lower(), eport(o)
+        host, port = bare(o["host"]), eport(o)
         secure = o["scheme"] in SECURE
         # ---- establishment chain
         if proxy == "none":
@@ -96,7 +117,7 @@ def judge(case, world, outs):
             mode = "socks"
             if pipe.target != PROXY_ADDR[proxy]:
                 vio.append(V(P, "wrong-connection", f"{what}: written to a stream established to {pipe.target}, expected the SOCKS proxy", mode=mode, **sig))
-            elif ex["via"] != ("socks", f"{host}:{port}"):
+            elif ex["via"] is None or ex["via"][0] != "socks" or not same_hostport(ex["via"][1], host, port):
                 vio.append(V(P, "wrong-connection", f"{what}: SOCKS command named {ex['via']}, expected {host}:{port}", mode=mode, **sig))
         elif o["scheme"] == "http":
             mode = "forward"
@@ -105,13 +126,13 @@ def judge(case, world, outs):
             else:
                 c = ref_split(ex["target"])
                 tport = int(c["port"]) if c["port"] else DEFAULT_PORT.get((c["scheme"] or b"").decode(), None)
-                if (c["scheme"], (c["host"] or b"").lower(), tport) != (o["scheme"].encode(), host.encode(), port):
+                if (c["scheme"], (c["host"] or b"").lower().strip(b"[]"), tport) != (o["scheme"].encode(), host.encode(), port):
                     vio.append(V(P, "wrong-connection", f"{what}: absolute target {ex['target']!r} names another origin", mode=mode, **sig))
         else:
             mode = "tunnel"
             if pipe.target != PROXY_ADDR[proxy]:
                 vio.append(V(P, "wrong-connection", f"{what}: written to a stream established to {pipe.target}, expected the proxy", mode=mode, **sig))
-            elif ex["via"] != ("connect", f"{host}:{port}"):
+            elif ex["via"] is None or ex["via"][0] != "connect" or not same_hostport(ex["via"][1], host, port):
                 vio.append(V(P, "wrong-connection", f"{what}: travelled through {ex['via']}, expected CONNECT {host}:{port}", mode=mode, **sig))
         # ---- TLS iff https/wss (the hop to an https proxy has its own marker)
         proxy_layers = 1 if proxy == "https" else 0
@@ -127,7 +148,7 @@ def judge(case, world, outs):
                 want_sni = [host] + ([r["sni"]] if r.get("sni") else [])  # lenient: either is accepted for tunnels
             # a connection established by an earlier request of the history keeps that request's SNI
             earlier = [q.get("sni") for j, q in enumerate(case["requests"][:i])
-                       if (q["origin"]["scheme"], q["origin"]["host"].lower(), eport(q["origin"])) == (o["scheme"], host, port)]
+                       if (q["origin"]["scheme"], bare(q["origin"]["host"]), eport(q["origin"])) == (o["scheme"], host, port)]
             want_sni += [s for s in earlier if s]
             if earlier:
                 want_sni.append(host)
@@ -178,7 +199,7 @@ def execute_matrix(case) -> Outcome:
     return Outcome(vio[:6], tags, nontrivial, info={"pipes": len(world.pipes)}, metrics={"executions": 2})
 
 
-HOSTS = ["a.test", "b.test", "A.Test", "10.0.0.1", "10.0.0.2"]
+HOSTS = ["a.test", "b.test", "A.Test", "10.0.0.1", "10.0.0.2", "[2001:db8::7]", "[2001:db8::8]"]
 
 
 @st.composite
@@ -216,7 +237,7 @@ def execute_history(case) -> Outcome:
     origins = []
     for r in case["requests"]:
         o = r["origin"]
-        key = (o["scheme"], o["host"].lower(), eport(o))
+        key = (o["scheme"], bare(o["host"]), eport(o))
         if key not in origins:
             origins.append(key)
     one_diff = any(sum(1 for x, y in zip(a, b) if x != y) == 1 for a, b in itertools.combinations(origins, 2))
@@ -317,6 +338,6 @@ PROP = Prop(
     assumptions=["TLS is a marker layer on the simulated pipe (server_hostname, ALPN offer and ssl context are recorded, no handshake); layer real-backends "
                  "performs real handshakes through httpcore's own backends and judges the server name and ALPN list parsed from the ClientHello on the wire",
                  "for CONNECT tunnels either the URL host or the sni_hostname extension is accepted as server name (the property leaves it open)",
-                 "IPv6 literal hosts are not generated here (C19 covers their parsing)"],
+                 "IPv6 literal hosts appear in the histories layer; whether the CONNECT target / SOCKS command spells them with brackets is not judged, the TLS server name must be the bare address"],
     explanation="Exhaustive over the configuration matrix; request histories sampled. Concurrent histories are covered by C01/C04.",
 )
